@@ -432,6 +432,9 @@ impl<T: Decode> Decode for Vec<T> {
         if bytes.is_empty() {
             Ok(vec![])
         } else if T::is_ssz_fixed_len() {
+            if T::ssz_fixed_len() == 0 {
+                return Err(DecodeError::ZeroLengthItem);
+            }
             bytes
                 .chunks(T::ssz_fixed_len())
                 .map(T::from_ssz_bytes)
@@ -451,6 +454,9 @@ impl<T: Decode, const N: usize> Decode for SmallVec<[T; N]> {
         if bytes.is_empty() {
             Ok(SmallVec::new())
         } else if T::is_ssz_fixed_len() {
+            if T::ssz_fixed_len() == 0 {
+                return Err(DecodeError::ZeroLengthItem);
+            }
             bytes
                 .chunks(T::ssz_fixed_len())
                 .map(T::from_ssz_bytes)
@@ -474,6 +480,9 @@ where
         if bytes.is_empty() {
             Ok(Self::from_iter(iter::empty()))
         } else if <(K, V)>::is_ssz_fixed_len() {
+            if <(K, V)>::ssz_fixed_len() == 0 {
+                return Err(DecodeError::ZeroLengthItem);
+            }
             bytes
                 .chunks(<(K, V)>::ssz_fixed_len())
                 .map(<(K, V)>::from_ssz_bytes)
@@ -496,6 +505,9 @@ where
         if bytes.is_empty() {
             Ok(Self::from_iter(iter::empty()))
         } else if T::is_ssz_fixed_len() {
+            if T::ssz_fixed_len() == 0 {
+                return Err(DecodeError::ZeroLengthItem);
+            }
             bytes
                 .chunks(T::ssz_fixed_len())
                 .map(T::from_ssz_bytes)
